@@ -1484,8 +1484,13 @@ void TasmanianSparseGrid::readAscii(std::istream &ifs){
         // grids with version prior to 3.0 are not supported
         size_t dec = T.find(".");
         if (dec == std::string::npos) throw std::runtime_error("ERROR: wrong file format, cannot read the version number");
-        int vmajor = stoi(T.substr(0, dec));
-        int vminor = stoi(T.substr(dec+1));
+        int vmajor = 0, vminor = 0;
+        try{
+            vmajor = stoi(T.substr(0, dec));
+            vminor = stoi(T.substr(dec+1));
+        }catch(std::logic_error &){ // std::invalid_argument (no digits) or std::out_of_range (too many digits) from std::stoi
+            throw std::runtime_error("ERROR: wrong file format, cannot read the version number");
+        }
         if (vmajor < 3) throw std::runtime_error("ERROR: file formats from versions prior to 3.0 are not supported");
         if ((vmajor > getVersionMajor()) || ((vmajor == getVersionMajor()) && (vminor > getVersionMinor()))){
             message += "ERROR: using future file format " + std::to_string(vmajor) + ", Tasmanian cannot time-travel.";
